@@ -133,6 +133,12 @@ def Val.index : Val → Val → Val
     | Option.none => .undef
   | _, _ => .undef
 
+/-- `getattr(value, name)` for the two attributes numbers and arrays have -/
+def Val.attr (name : String) : Val → Val
+  | .int n => if name = "real" then .int n else if name = "imag" then .int 0 else .undef
+  | .arr a => if name = "real" then .arr a else if name = "imag" then .arr (a.map fun _ => some 0) else .undef
+  | _ => .undef
+
 def Val.setIndex : Val → Val → Val → Val
   | .arr a, .int i, .int x =>
     match normIndex a.length i with
@@ -179,6 +185,9 @@ def evalI (F : Funs) (env : List (Name × Int)) (σ : Store) : Expr → Val × L
     let (va, ra) := evalI F env σ a
     let (vi, ri) := evalI F env σ i
     (va.index vi, ra ++ ri)
+  | .attr a n =>
+    let (va, ra) := evalI F env σ a
+    (va.attr n, ra)
   | .cmp op a b =>
     let (va, ra) := evalI F env σ a
     let (vb, rb) := evalI F env σ b
@@ -261,6 +270,7 @@ def depVars : Expr → List Name
   | .pow a b => depVars a ++ depVars b
   | .call _ args kw => depVarsL args ++ depVarsK kw
   | .sub a i => depVars a ++ depVars i
+  | .attr a _ => depVars a
   | .cmp _ a b => depVars a ++ depVars b
   | .lnot a => depVars a
   | .land cs => depVarsL cs
